@@ -7,6 +7,7 @@ package c03
 //   c03.parsePort    types.ParsePortConfig         vs Short.parsePort
 //   c03.canonical    transform.Canonical           vs Short.canonical
 //   c03.decode       (*types.X).DecodeMapstructure vs Short.decodeX
+//   c03.twoDocs      Canonical ∘ override.Merge ∘ Canonical at services.s.<attr>  vs Short.twoDocsAt
 //   c03.pathClean    path.Clean                    vs Short.pathClean
 //   c03.validIP      net.ParseIP != nil            vs Short.validIP
 // direct oracles (the property decided on the real code):
@@ -28,6 +29,7 @@ import (
 	"time"
 
 	"github.com/compose-spec/compose-go/v2/format"
+	"github.com/compose-spec/compose-go/v2/override"
 	"github.com/compose-spec/compose-go/v2/transform"
 	"github.com/compose-spec/compose-go/v2/tree"
 	"github.com/compose-spec/compose-go/v2/types"
@@ -1144,6 +1146,60 @@ func init() {
 			json.Unmarshal(real, &r)
 			if r.Short.Err == "" {
 				return core.Fail("nearmiss-accepted:"+a.Attr+":"+a.Class, fmt.Sprintf("a short form outside the grammar was loaded: %s", r.Short.Ok))
+			}
+			return nil
+		},
+	})
+	core.Register("c03.twoDocs", &core.CheckDef{
+		Real: func(raw json.RawMessage) any {
+			var a struct {
+				Attr       string
+				Doc1, Doc2 json.RawMessage
+			}
+			json.Unmarshal(raw, &a)
+			wrap := func(v any) map[string]any {
+				return map[string]any{"services": map[string]any{"s": map[string]any{a.Attr: v}}}
+			}
+			c1, err := transform.Canonical(wrap(core.DecodeValRaw(a.Doc1)), false)
+			if err != nil {
+				return map[string]any{"err": "err", "stage": "canonical1"}
+			}
+			m, err := override.Merge(c1, wrap(core.DecodeValRaw(a.Doc2)))
+			if err != nil {
+				return map[string]any{"err": "err", "stage": "merge"}
+			}
+			r, err := transform.Canonical(m, false)
+			if err != nil {
+				return map[string]any{"err": "err", "stage": "canonical2"}
+			}
+			out := map[string]any{"ok": core.EncodeVal(r["services"].(map[string]any)["s"].(map[string]any)[a.Attr])}
+			if al := aliasScan(r); al != nil {
+				out["aliased"] = al
+			}
+			return out
+		},
+		DriverOp: "c03.twoDocs",
+		Judge: func(args, real, drv json.RawMessage) *core.Verdict {
+			if c := core.Class(real); c == "panic" || c == "fatal" || c == "hang" {
+				return crashVerdict(real)
+			}
+			var ro struct {
+				Ok      json.RawMessage
+				Err     string
+				Aliased *struct{ First, Second, Pattern string }
+			}
+			json.Unmarshal(real, &ro)
+			if ro.Aliased != nil {
+				return core.Fail("canonical-aliased-nodes:"+ro.Aliased.Pattern, fmt.Sprintf("after Canonical∘Merge∘Canonical one mutable node sits at two positions: %s and %s", ro.Aliased.First, ro.Aliased.Second))
+			}
+			var cmp []byte
+			if ro.Err != "" {
+				cmp, _ = json.Marshal(map[string]any{"err": "err"})
+			} else {
+				cmp, _ = json.Marshal(map[string]any{"ok": ro.Ok})
+			}
+			if !core.CanonEqual(cmp, drv) {
+				return core.Disagree("Short.twoDocsAt ≠ Canonical∘Merge∘Canonical")
 			}
 			return nil
 		},
